@@ -51,6 +51,7 @@ def opOf (j : Json) : Except String HOp := do
   | .arr #[.str "read", o] => pure (.read (← natOf o))
   | .arr #[.str "modify", o] => pure (.modify (← natOf o))
   | .arr #[.str "create"] => pure .create
+  | .arr #[.str "query"] => pure .query
   | .arr #[.str "link", a, b] => pure (.link (← natOf a) (← natOf b))
   | .arr #[.str "unlink", a, b] => pure (.unlink (← natOf a) (← natOf b))
   | .arr #[.str "linkNewOwner", b] => pure (.linkNewOwner (← natOf b))
@@ -116,6 +117,15 @@ def handle (j : Json) : Except String Json := do
       let rounds ← listOf (listOf natOf) (← fld j "rounds")
       let ord : Nat → List Nat → List Nat := fun r l => ordOf ((rounds[49 - r]?).getD []) l
       pure (jResult (flush H ord bfuel s))
+  | "flushN" =>
+      -- orders = [[n, [objects…]], …]: the statement order observed for the round whose save loop starts when the trace has n events
+      let orders ← listOf (fun e => do
+        match e with
+        | .arr #[n, l] => pure (← natOf n, ← listOf natOf l)
+        | _ => throw "order: [n, [..]] expected") (← fld j "orders")
+      let ord : State → List Nat → List Nat := fun st l =>
+        ordOf (((orders.find? (fun e => e.1 == st.trace.length)).map (·.2)).getD []) l
+      pure (jResult (flushN H ord bfuel (← argNat j "depth") s))
   | "entityFlush" =>
       let o ← argNat j "obj"
       let refs ← listOf (listOf natOf) (← fld j "refs")        -- refs[p] = objects the row of p refers to
